@@ -16,7 +16,7 @@ from vmon.props import c08
 LEVEL = "exploration"
 SHARDS = {"quick": 16, "thorough": 16}
 KINDS = ("integer", "float", "enumerated", "boolean", "string", "binary", "abstime", "reltime")
-MUST = [f"fields.{k}" for k in KINDS] + ["directed.packets", "documents.serialized_before_decoding", "packets.depth>=2", "stream.items", "stream.error_objects", "outcome.unrecognized",
+MUST = [f"fields.{k}" for k in KINDS] + ["directed.packets", "directed.float_equality_neighbours", "directed.default_root_after_override", "documents.serialized_before_decoding", "packets.depth>=2", "stream.items", "stream.error_objects", "outcome.unrecognized",
                                           "outcome.ok", "read_as_int.evaluations", "selfcheck.documents", "mission.packets"]
 RULE = ("document = seeded IR (container tree depth<=3, fan-out<=3, nested/shared containers, all eight parameter-type "
         "kinds, every encoding, calibrators, criteria of every form, dynamic lengths) rendered by my writer and loaded "
@@ -227,6 +227,48 @@ def run(ctx):
         if ctx.mine(m + 5):
             mission_replay(ctx, m)
     directed_rare(ctx)
+    if ctx.shard == 6 % ctx.nshards:
+        directed_floats_and_roots(ctx)
+
+
+def directed_floats_and_roots(ctx):
+    """(1) equality criteria on float parameters: packet values that are the neighbouring doubles of the document's value (and values
+    within 1e-9 of it) are NOT equal to it - inheritance, context calibrators and != alike. (2) a generator created with another
+    root_container_name is used up first; a generator created afterwards without one decodes from the document's own root."""
+    import math
+    import struct
+    from space_packet_parser import packets as P
+    from vmon.props.c05 import header_types
+    ts, ps = header_types("PKT_APID")
+    cc = ir.ContextCal((ir.Comparison("F", "1.5", "==", False),), ir.Poly(((100.0, 0), (1.0, 1))))
+    ts += [ir.PType("F_T", "float", ir.FloatEnc(64)), ir.PType("Y_T", "float", ir.IntEnc(8, "unsigned", False, None, (cc,))), ir.PType("Z_T", "integer", ir.IntEnc(16, "unsigned"))]
+    ps += [ir.Param("F", "F_T"), ir.Param("Y", "Y_T"), ir.Param("Z", "Z_T")]
+    hdr = tuple(("p", p.name) for p in ps[:7])
+    doc = ir.Doc(tuple(ts), tuple(ps), (ir.Container("CCSDSPacket", hdr + (("p", "F"),)),
+                                        ir.Container("EQ", (("p", "Y"),), "CCSDSPacket", (ir.Comparison("F", "1.5", "==", False),)),
+                                        ir.Container("NE", (("p", "Y"), ("p", "Y")), "CCSDSPacket", (ir.Comparison("F", "1.5", "!=", False), ir.Comparison("F", "2.5", "<", False))),
+                                        ir.Container("ALT", hdr + (("p", "Z"),))))
+    info = harness.DocInfo(doc)
+    defn = load_definition(render.render_doc(doc))
+    vals = [1.5, math.nextafter(1.5, 2), math.nextafter(1.5, 1), 1.5 * (1 + 4e-10), 1.5 * (1 - 4e-10), 1.5000001, 3.0, -1.5]
+    raws = [bytes(P.create_ccsds_packet(struct.pack(">d", v) + b"\x05\x06", apid=9, sequence_count=j)) for j, v in enumerate(vals)]
+    outs = [ref.walk(doc, r) for r in raws]
+    for r, o, v in zip(raws, outs, vals):
+        step, pkt = harness.parse_single(defn, r)
+        ctx.count("evaluations")
+        ctx.count("directed.float_equality_neighbours")
+        ctx.sig("float-equality", o.path[-1] if o.path else None)
+        for mech, msg in harness.judge_single(ctx, info, r, step, pkt, o):
+            ctx.violation("directed/float-equality/" + mech, f"F={v!r}: " + msg, {"F": repr(v), "model_path": o.path})
+            break
+    # ---- (2)
+    stream = b"".join(raws)
+    alt = monitored(lambda: [int(p_["Z"]) for p_ in defn.packet_generator(stream, root_container_name="ALT")])
+    want_alt = [int.from_bytes(r[6:8], "big") for r in raws]
+    if alt.value != want_alt:
+        ctx.violation("directed/root-override/values", f"root_container_name='ALT' gave Z={alt.value} / {alt.exc!r}, expected {want_alt}", {})
+    compare_stream(ctx, info, defn, raws, outs, "bytes", False, ctx.rng("roots"))
+    ctx.count("directed.default_root_after_override")
 
 
 def directed_rare(ctx):
